@@ -59,12 +59,12 @@ def rules_term():
 
 def l1_fn():
     return ("fun c => match c with (opts, header, groups, given, out) => "
-            "match out with Some o => l1_run (fst opts) groups given o | None => false end end")
+            "match out with ROk o => l1_run (fst opts) groups given o | RErr _ => false end end")
 
 
 def l2_fn():
     return ("fun c => match c with (opts, header, groups, given, out) => "
-            f"ooutput_eqb (run_stats {rules_term()} (fst opts) (snd opts) header groups given) out end")
+            f"rresult_eqb (run_stats {rules_term()} (fst opts) (snd opts) header groups given) out end")
 
 
 # ------------------------------------------------------------------------------------------------ running one case
@@ -96,6 +96,8 @@ def run_case(ctx, case, wd, idx):
     out = None
     if rc == 0:
         out = G.parse_outputs(os.path.join(d, "o.tsv"), os.path.join(d, "o.bl"), os.path.join(d, "o.gtf"), ids)
+    if out is None:
+        out = G.error_kind(se)
     return dict(case=case, contigs=contigs, groups=groups, given=given, ids=ids, out=out, rc=rc,
                 err=se.strip().splitlines()[-1] if se.strip() else "", stderr=se[-1500:])
 
@@ -163,7 +165,7 @@ def oracle_fails(res):
 def model_eq_fn(skip_missing_gt, ps_missing_unphased):
     r = f"(mkRules {'true' if skip_missing_gt else 'false'} {'true' if ps_missing_unphased else 'false'})"
     return ("fun c => match c with (opts, header, groups, given, out) => "
-            f"ooutput_eqb (run_stats {r} (fst opts) (snd opts) header groups given) out end")
+            f"rresult_eqb (run_stats {r} (fst opts) (snd opts) header groups given) out end")
 
 
 def classify_batch(name, results):
@@ -230,7 +232,7 @@ def describe(res):
     body = [l for l in c["vcf"].split("\n") if l and not l.startswith("##")]
     opts = " ".join((["--only-snvs"] if c.get("only_snvs") else []) + [f"--chromosome {x}" for x in c.get("chromosomes") or []]
                     + ([f"--sample {c['sample']}"] if c.get("sample") else []) + (["(indexed)"] if c.get("indexed") else []))
-    if res["out"] is None:
+    if isinstance(res["out"], str):
         got = f"exit code {res['rc']}: {res['err']}"
     else:
         names = {v: k for k, v in res["ids"].items()}
@@ -329,7 +331,7 @@ def run(ctx):
         results += run_cases(ctx, cases[off:off + 400], wd, base=off)
     for r in results:
         c = r["case"]
-        key = (G.case_term(bool(c.get("only_snvs")), bool(c.get("indexed")), r["contigs"], r["groups"], r["given"], r["ids"], None))
+        key = (G.case_term(bool(c.get("only_snvs")), bool(c.get("indexed")), r["contigs"], r["groups"], r["given"], r["ids"], "EOther"))
         ctx.count(key, nontrivial=nontrivial(r))
         t = c.get("tags", {})
         ctx.tally("cases")
@@ -354,7 +356,7 @@ def run(ctx):
     for r in results[:2] + results[5:8]:
         ctx.sample({"options": {k: r["case"].get(k) for k in ("sample", "only_snvs", "chromosomes", "indexed")},
                     "vcf_records": [l for l in r["case"]["vcf"].split("\n") if l and not l.startswith("#")][:12],
-                    "impl": None if r["out"] is None else {"rows": r["out"]["rows"], "all": r["out"]["all"],
+                    "impl": r["out"] if isinstance(r["out"], str) else {"rows": r["out"]["rows"], "all": r["out"]["all"],
                                                            "block_list": r["out"]["bl"], "gtf": r["out"]["gtf"]}})
     failing, l1 = check_batch(ctx, results, wd, "main")
     ctx.extra["l1_failures"] = len(l1)
